@@ -85,7 +85,7 @@ fn event(w: &mut impl Write, k: &Key, kid: usize, o: &Outcome, ticks: u64, lex: 
     let val = match o { Outcome::Ok(v) => v.abstract_json(), _ => json!({"t": "none"}) };
     let line = json!({"ev": "Call", "e": k.e, "chars": abstract_chars(&k.expr), "len": k.expr.chars().count(), "ph": k.ph.abstract_json(), "st": o.status(),
                       "val": val, "canon": o.canon(), "ticks": ticks, "tk": {"lex": lex, "parse": parse, "eval": eval, "loops": loops},
-                      "kid": kid, "thread": thread, "seq": seq, "phase": kind, "claim": {"v": "unclaimed"}});
+                      "kid": kid, "thread": thread, "seq": seq, "phase": kind, "claim": {"v": "unclaimed"}, "noast": true});
     let _ = writeln!(w, "{}", line);
 }
 
@@ -195,7 +195,7 @@ pub fn run(out: &mut Out, seed: u64, n_seq: usize, n_par: usize, threads: usize)
     let mut groups: std::collections::BTreeMap<(&str, &str), Vec<usize>> = std::collections::BTreeMap::new();
     for (i, k) in pool.iter().enumerate() { groups.entry((k.e, k.expr.as_str())).or_default().push(i); }
     let mut duels: Vec<(usize, usize)> = Vec::new();
-    for idx in groups.values() { for w in idx.windows(2).take(4) { if iso[w[0]] != iso[w[1]] { duels.push((w[0], w[1])); } } }
+    for idx in groups.values() { for w in idx.windows(2) { if iso[w[0]] != iso[w[1]] { duels.push((w[0], w[1])); } } }
     let its = (n_par / 8).clamp(100, 400);
     for (a, b) in &duels {
         let bad: Vec<Vec<(usize, String, usize)>> = std::thread::scope(|sc| {
